@@ -496,7 +496,12 @@ func checkMulti(fn, field string, evs []*Event, got interface{}, present bool) s
 	default:
 		gl = []string{fmt.Sprint(g)}
 	}
-	if !present && total > 0 {
+	if total == 0 {
+		// like every other measure over no values at all: how "nothing" is rendered is not stated (the node
+		// answers 0)
+		return ""
+	}
+	if !present {
 		return fmt.Sprintf("measure missing although %d events carry the field", total)
 	}
 	have := map[string]int{}
